@@ -492,12 +492,23 @@ class Report:
     mod = importlib.import_module('sa.props.%s' % dep)
     sub = Report(dep, self.tier, self.model)
     sub.importing = True
-    mod.check(self.model, sub, self.tier)
+    stopped = None
+    try:
+      mod.check(self.model, sub, self.tier)
+    except AnalysisError as e:
+      # the imported checker lost an anchor: what it found before that still
+      # counts here (a violation is a violation); the error is re-raised after
+      # the import so that this run cannot end as a pass
+      stopped = e
     if rules is None:   # every rule of the other checker's own (no field-type lint)
       rules = [r for r in sub.rules if '.' not in r and not r.endswith('ASDL')]
     for r in rules:
       if r not in sub.rules:
+        if stopped is not None:
+          continue
         raise AnalysisError('%s has no rule %s (dependency of %s)' % (dep, r, self.prop))
+      if r not in sub.rules:
+        continue
       self.rule('%s.%s' % (dep, r), '[needed because %s] %s' % (why, sub.rules[r]),
                 floor=sub.floors.get(r, 0) if site_filter is None else 1)
     keep = site_filter or (lambda site: True)
@@ -512,6 +523,8 @@ class Report:
       if k.get('property') == dep and k.get('rule') in rules:
         self.known.append(dict(k, rule='%s.%s' % (dep, k['rule']), property=self.prop))
     self.files |= sub.files
+    if stopped is not None:
+      raise AnalysisError('imported checker %s stopped: %s' % (dep, stopped))
 
   def note(self, msg):
     self.notes.append(msg)
